@@ -15,7 +15,10 @@ points after every operation of random histories.
 The definitions model the code after the repairs D20, D21, D27, D30.  The behaviour before the
 repairs (`autoWeightsOld`, `Grid.reverseOld`) has proved counterexamples at the end.
 The trigonometric clauses (Cartesian → polar → Cartesian, polar rotation) are stated over `ℝ` with
-the specification functions `toPolar` / `toCart` of `Lemmas/GridPolar.lean`.
+the specification functions `toPolar` / `toCart` of `Lemmas/GridPolar.lean`, **and** on the exact executable
+model `cartToPolar?` / `polarToCart` (direction `(cos θ, sin θ)` instead of `θ`; defined on the points with a
+rational radius), which the driver runs (`aspolar`, `ascart`) and the harness compares with `Grid.as_`;
+`cartToPolar_matches_spec` bridges the two.
 -/
 set_option linter.unusedSimpArgs false
 set_option linter.unusedVariables false
@@ -403,33 +406,105 @@ theorem polar_scale_is_scaling (r θ k : ℝ) :
   simp only [toCart, Prod.mk.injEq]
   constructor <;> ring
 
-/-! ## Conversion histories: a conversion is a function of the current value -/
+/-! ## The executable conversion model (`cartToPolar?`, `polarToCart`, `Coords.asPolarPts`, `Coords.asCartPts`)
 
-/-- **convert → reverse → convert**: the second conversion lists the converted points in the
-reversed order (point `i` of the reversed grid is point `N-1-i` of the original), whatever was
-converted before. -/
-theorem conversion_after_reverse (φ : List Rat → List Rat) (g : Grid) (h : g.coords.WF) :
-    convPoints φ g.reverse.coords = (convPoints φ g.coords).reverse := by
-  simp [convPoints, Grid.reverse, Coords.points_reverse g.coords h, List.map_reverse]
+The `ℝ` theorems above are about the specification functions.  The statements below are about the
+exact **executable** model of `as_` in Model/Grid.lean, which the driver runs (`aspolar i`, `ascart i …`)
+on the current value of a live grid after every history and which the harness compares with what
+`grid.as_(…)` returns on the real object *with its conversion history* (radius, direction `(cos θ,
+sin θ)` ↔ `θ = arctan2`).  A polar point of the model is `[r, c, s]` with `(c, s)` the direction; the model
+is defined on the points whose radius is rational (Pythagorean directions), where it is exact.
+`cartToPolar_matches_spec` connects the two levels. -/
 
-/-- a conversion after a scale / shift converts the scaled / shifted points -/
-theorem conversion_after_scale_shift (φ : List Rat → List Rat) (c : Coords) (f b : List Rat)
-    (hf : f.length = c.ndim) (hb : b.length = c.ndim) :
-    convPoints φ (c.scale f) = c.points.map (φ ∘ scalePt f) ∧
-    convPoints φ (c.shift b) = c.points.map (φ ∘ shiftPt b) := by
-  simp [convPoints, Coords.points_scale c f hf, Coords.points_shift c b hb, List.map_map]
+/-- **Cartesian → polar → Cartesian returns the same point, exactly** (executable model; every point on
+which the model is defined, origin and negative x-axis included). -/
+theorem as_roundtrip_exact (x y : Rat) (q : List Rat) (h : cartToPolar? [x, y] = some q) : polarToCart q = [x, y] := by
+  obtain ⟨r, c, s, rfl, _, _, _, hx, hy⟩ := cartToPolar?_spec x y q h
+  simp [polarToCart, hx, hy]
 
-/-- equal grids (`==`) convert to the same points: a fresh equal grid is as good as the one with
-a conversion history -/
-theorem conversion_of_equal_grids (φ : List Rat → List Rat) (a b : Grid) (h : a.eq b = true) :
-    convPoints φ a.coords = convPoints φ b.coords := by
-  rw [(Grid.eq_true_imp h).2]
+/-- the converted point: non-negative radius = distance from the origin, direction on the unit circle -/
+theorem as_polar_spec (x y : Rat) (q : List Rat) (h : cartToPolar? [x, y] = some q) :
+    ∃ r c s, q = [r, c, s] ∧ 0 ≤ r ∧ r * r = x * x + y * y ∧ c * c + s * s = 1 ∧ x = r * c ∧ y = r * s :=
+  cartToPolar?_spec x y q h
 
-/-! ## The code before the repairs -/
+/-- **polar → Cartesian → polar** returns the same radius and direction (for `r > 0`; the origin has the
+canonical direction `(1, 0)`, as `arctan2(0, 0) = 0`): the model is defined exactly on the points with a
+rational radius and unit direction. -/
+theorem as_roundtrip_polar (r c s : Rat) (hr : 0 ≤ r) (hcs : c * c + s * s = 1) :
+    cartToPolar? (polarToCart [r, c, s]) = some (if r = 0 then [0, 1, 0] else [r, c, s]) :=
+  cartToPolar?_complete r c s hr hcs
+
+/-- **The executable model computes the specification**: where `cartToPolar?` is defined its radius is
+`hypot(x, y)` and its direction is `(cos θ, sin θ)` of `θ = arctan2(y, x)` (`toPolar`, over `ℝ`). -/
+theorem cartToPolar_matches_spec (x y r c s : Rat) (h : cartToPolar? [x, y] = some [r, c, s]) :
+    (toPolar ((x : ℝ), (y : ℝ))).1 = (r : ℝ) ∧ Real.cos (toPolar ((x : ℝ), (y : ℝ))).2 = (c : ℝ) ∧
+      Real.sin (toPolar ((x : ℝ), (y : ℝ))).2 = (s : ℝ) := cartToPolar?_toPolar x y r c s h
+
+/-- … and `polarToCart` is `toCart` for an angle with that direction. -/
+theorem polarToCart_matches_spec (r c s : Rat) (θ : ℝ) (hc : Real.cos θ = (c : ℝ)) (hs : Real.sin θ = (s : ℝ)) :
+    toCart ((r : ℝ), θ) = (((r * c : Rat) : ℝ), ((r * s : Rat) : ℝ)) ∧ polarToCart [r, c, s] = [r * c, r * s] := by
+  simp [toCart, hc, hs, polarToCart]
+
+example : cartToPolar? [-3 / 2, 2] = some [5 / 2, -3 / 5, 4 / 5] ∧ cartToPolar? [0, 0] = some [0, 1, 0] ∧
+    cartToPolar? [-2, 0] = some [2, -1, 0] ∧ cartToPolar? [1, 1] = none := by decide +kernel
+
+/-! ### Conversion histories: what a conversion returns after other operations
+
+`Coords.asPolarPts c = c.points.map cartToPolar?` has no state besides the current coordinates — in the
+model that is by construction; that the *code* has no stale cache either is what the tie checks (the
+`aspolar` / `ascart` answers are compared with a fresh `as_()` of a real grid that has been converted,
+reversed, scaled and converted again).  The theorems say what the current value is after each operation. -/
+
+/-- **convert → reverse → convert**: the second conversion lists the converted points in reversed order. -/
+theorem as_after_reverse (g : Grid) (h : g.coords.WF) : g.reverse.coords.asPolarPts = g.coords.asPolarPts.reverse := by
+  simp [Coords.asPolarPts, Grid.reverse, Coords.points_reverse g.coords h, List.map_reverse]
+
+/-- a conversion after a scale / shift / rotation converts the scaled / shifted / rotated points -/
+theorem as_after_scale_shift_rotate (c : Coords) (f b : List Rat) (M : List (List Rat))
+    (hf : f.length = c.ndim) (hb : b.length = c.ndim) (hM : M ≠ []) :
+    (c.scale f).asPolarPts = c.points.map (cartToPolar? ∘ scalePt f) ∧
+    (c.shift b).asPolarPts = c.points.map (cartToPolar? ∘ shiftPt b) ∧
+    (c.linmap M).asPolarPts = c.points.map (cartToPolar? ∘ linPt M) := by
+  simp [Coords.asPolarPts, Coords.points_scale c f hf, Coords.points_shift c b hb, Coords.points_linmap c M hM, List.map_map]
+
+/-- **Scaling commutes with the conversion**: the polar form of the scaled point `(k x, k y)`, `k > 0`,
+is the scaled radius with the same direction — so `PolarGrid.scale(k)` (radius × k, `polar_scale_is_scaling`)
+and `CartesianGrid.scale(k)` agree through `as_`. -/
+theorem as_scale_commutes (x y k r c s : Rat) (hk : 0 < k) (h : cartToPolar? [x, y] = some [r, c, s]) (hr : r ≠ 0) :
+    cartToPolar? [x * k, y * k] = some [r * k, c, s] := by
+  obtain ⟨r', c', s', hq, h0, hsq, hcs, hx, hy⟩ := cartToPolar?_spec x y _ h
+  simp only [List.cons.injEq, and_true] at hq
+  obtain ⟨rfl, rfl, rfl⟩ := hq
+  have := cartToPolar?_complete (r * k) c s (by positivity) hcs
+  have hne : r * k ≠ 0 := mul_ne_zero hr (ne_of_gt hk)
+  simp only [hne, if_false] at this
+  have e1 : x * k = r * k * c := by rw [hx]; ring
+  have e2 : y * k = r * k * s := by rw [hy]; ring
+  rw [e1, e2]; exact this
+
+/-- **polar scale, then convert** = **convert, then Cartesian scale** on the executable model, whatever
+directions the points have. -/
+theorem asCart_after_polar_scale (c : Coords) (k : Rat) (dirs : List (Rat × Rat)) (h2 : c.ndim = 2) :
+    (c.scale [k, 1]).asCartPts dirs = (c.asCartPts dirs).map (scalePt [k, k]) := by
+  simp only [Coords.asCartPts, Coords.points_scale c [k, 1] (by simp [h2]), List.zipWith_map_left, List.map_zipWith]
+  congr 1
+  funext p d
+  cases p with
+  | nil => simp [scalePt, polarToCart]
+  | cons r p => cases p <;> simp [scalePt, polarToCart] <;> constructor <;> ring
+
+/-- equal grids (`==`) convert to the same points: a fresh equal grid is as good as the one with a
+conversion history -/
+theorem as_of_equal_grids (a b : Grid) (h : a.eq b = true) (dirs : List (Rat × Rat)) :
+    a.coords.asPolarPts = b.coords.asPolarPts ∧ a.coords.asCartPts dirs = b.coords.asCartPts dirs := by
+  rw [(Grid.eq_true_imp h).2]; exact ⟨rfl, rfl⟩
+
+/-! ## Old — the code before the repairs (documentation of D21 / D30; code that no longer exists in /repo:
+not evidence for the property) -/
 
 /-- D21: with signed automatic weights a reversed 1-D regular grid gets negative weights — unless the
 weights had been cached before the reversal (history dependence). -/
-theorem weightsOld_history_dependent :
+theorem Old.weights_history_dependent :
     ∃ g g' : Grid, g.materialize = some g' ∧ g.coords = g'.coords ∧
       g.reverseOld.weightListOld = some [-1 / 2, -1 / 2] ∧ g'.reverseOld.weightListOld = some [1 / 2, 1 / 2] :=
   ⟨⟨.cartesian, .regular [⟨1 / 2, 2, 0⟩], .none⟩, ⟨.cartesian, .regular [⟨1 / 2, 2, 0⟩], .scalar (1 / 2)⟩,
@@ -437,7 +512,7 @@ theorem weightsOld_history_dependent :
 
 /-- D30: the old `reverse` left cached per-point weights in the old order, so they no longer belong
 to their points. -/
-theorem reverseOld_misplaces_weights :
+theorem Old.reverse_misplaces_weights :
     ∃ g : Grid, g.reverseOld.weightList ≠ g.weightList.map List.reverse :=
   ⟨⟨.cartesian, .separated [[0, 1, 3]], .array [1, 3 / 2, 2]⟩, by decide +kernel⟩
 
